@@ -666,6 +666,15 @@ func coreGraphs() []*srcGraph {
 	mk("artifact-index", gen.Shape{BlobEntry: true})
 	mk("index", gen.Shape{Referrers: 2, RefOfRef: true, ChildRefs: 1})
 	mk("image", gen.Shape{DigestTags: 1})
+	// an image one of whose layers also names external URLs and is nevertheless stored (what a copy with
+	// "include external" or a direct push leaves in a layout)
+	mk("image", gen.Shape{Foreign: true})
+	for _, n := range out[len(out)-1].G.Nodes {
+		if len(n.URLs) > 0 {
+			n.External = false
+		}
+	}
+	out[len(out)-1].Shape += "/hosted"
 	// the custom shapes: draw until each kind has appeared once
 	want := []string{"oci-artifact-manifest-in-index", "oci-artifact-manifest", "nested3", "bare-image-in-index"}
 	rng := rand.New(rand.NewSource(4242))
@@ -701,6 +710,12 @@ func runCoreHistory(k int, graphs []*srcGraph, verbose bool) {
 	var err error
 	if h.Variant == "rc" {
 		opts := []regclient.ImageOpts{regclient.ImageWithReferrers(), regclient.ImageWithDigestTags()}
+		for _, n := range sg.G.Nodes {
+			if len(n.URLs) > 0 && !n.External {
+				opts = append(opts, regclient.ImageWithIncludeExternal())
+				break
+			}
+		}
 		err, _ = h.guarded("copy-in", func(ctx context.Context) error {
 			return h.cl.RC().ImageCopy(ctx, h.srcs[0].Ref("v1"), h.dref("v1"), opts...)
 		})
